@@ -334,7 +334,11 @@ Box<ITV>::add_constraints(const Constraint_System& cs) {
     throw_dimension_incompatible("add_constraints(cs)", cs);
   }
 
-  add_constraints_no_check(cs);
+  // An unsupported constraint must leave `*this' unchanged:
+  // work on a copy and commit at the end.
+  Box tmp(*this);
+  tmp.add_constraints_no_check(cs);
+  m_swap(tmp);
 }
 
 template <typename T>
@@ -361,7 +365,11 @@ Box<ITV>::add_congruences(const Congruence_System& cgs) {
   if (cgs.space_dimension() > space_dimension()) {
     throw_dimension_incompatible("add_congruences(cgs)", cgs);
   }
-  add_congruences_no_check(cgs);
+  // An unsupported congruence must leave `*this' unchanged:
+  // work on a copy and commit at the end.
+  Box tmp(*this);
+  tmp.add_congruences_no_check(cgs);
+  m_swap(tmp);
 }
 
 template <typename T>
